@@ -17,7 +17,8 @@ ENGINE = "seq"
 RUNS = {"quick": 60_000, "thorough": 3_000_000}
 RULE = ("seeded histories (<=10 quick / <=16 thorough operations) over consume (all currencies, allow_debt, priority), "
         "regenerate, transfer_to (both directions and to self), convert_nadh_to_atp, enter/exit dormancy, "
-        "apply_debt_interest, reset on two real ATP_Stores from a configuration grid that includes zero capacities; "
+        "apply_debt_interest, reset on two real ATP_Stores from a configuration grid that includes zero capacities and an "
+        "on_state_change collaborator that is absent, recording or raising on chosen states; "
         "amounts are boundary-relative (balance, balance+-1, capacity, atp+nadh, remaining debt room) or absolute; "
         "non-trivial = history that exercised >= 2 of {NADH top-up, debt, starvation/dormancy gating, clamp at capacity, "
         "zero-capacity store}; distinct = distinct (configuration, operation list)")
